@@ -113,6 +113,12 @@ Definition model_out (c : nat * (list Z * list Z)) : option (list Z) :=
         let '(sink, vs) := run_history ss 0 in
         flat_map verdict_code vs ++ [-7] ++ map Z.of_nat sink)
         (sends_of (length l) l)
+  | 13%nat, t :: comp :: items :: okind :: code :: rik :: nanos :: w :: signal :: algs =>
+      option_map (fun o =>
+        let h := hop_cfg algs comp (transport_of t) NoAuth (Z.to_N items) o in
+        [b2z (h_called h)] ++ verdict_obs (h_verdict h) ++ [opt_code (h_err_code h); b2z (h_called h); 1])
+        (outcome_of okind code rik nanos w)
+  | 20%nat, name :: algs => Some [b2z (server_accepts algs name)]
   | 9%nat, [a; body; okind; code; rik; nanos; w] =>
       option_map (fun o =>
         let '(called, s) := recv_grpc (auth_of a) (body_of body) o in
